@@ -347,7 +347,8 @@ def g_ip(rng):
                            "a" * 63 + ".com", "www.example.org."])
     if k < 0.9:
         return rng.choice(["", "\x00", "1.2.3.4\x00", "\x001.2.3.4", "::1\x00", "1", "127.1", "0x7f.1", "01.2.3.4", "1.2.3", "1.2.3.4.5",
-                           "256.1.1.1", "1.2.3.4 ", " 1.2.3.4", "[::1]", "::1%lo", "fe80::1%1", "fe80::1%zz", "::1%", ":::", ":", "::",
+                           "256.1.1.1", "1.2.3.4 ", " 1.2.3.4", "[::1]", "::1%lo", "fe80::1%1", "fe80::1%zz", "::1%", "::1%lo:", "fe80::1%lo:x", "::1%lo:<b>", "fe80::1%1:2", "::1%:", "1.2.3.4%lo:x",
+                           "::1%lo%x:y", ":::", ":", "::",
                            "1:2:3:4:5:6:7:8:9", "12345::", "::g", "1.2.3.4\xad", "\xb9.2.3.4", "::\xaa", "\uff11.2.3.4", "1.2.3.4\u200b",
                            "1\u30022.3.4", "\xe9", "1" * 70, "::ffff:1.2.3.4", "::1.2.3.4", "1::2::3", "1:2:3:4:5:6:7::", "::2:3:4:5:6:7:8",
                            "1:2:3:4:5:6:1.2.3.4", "1:2:3:4:5:6:7:1.2.3.4", "::1.2.3", "1.2.3.4::", "4294967295", "0", "\n", "1.2.3.4\n"])
